@@ -349,7 +349,7 @@ def main(ctx):
             f.write(json.dumps(c) + "\n")
 
     # 2. the real code
-    nrand, ndet = (600, 60) if quick else (6000, 500)
+    nrand, ndet = (600, 60) if quick else (4000, 400)
     trace = ctx.path("trace.ndjson")
     msg = run_driver(ctx, drv, ["-cases", fm, "-sized", fs, "-random", str(nrand), "-det", str(ndet), "-out", trace],
                      "running the exported, sized and random cases and the determinism scenarios")
